@@ -302,7 +302,13 @@ func reifyStruct(opts *options, orig reflect.Value, cfg *Config) Error {
 
 			if fInfo.tagOptions.squash {
 				vField := chaseValue(fInfo.value)
-				switch vField.Kind() {
+				kind := vField.Kind()
+				if kind == reflect.Ptr {
+					// a nil pointer: it is allocated like that of any other
+					// field, what it points to is told by its type
+					kind = chaseTypePointers(vField.Type()).Kind()
+				}
+				switch kind {
 				case reflect.Struct, reflect.Map:
 					if err := reifyInto(fInfo.options, fInfo.value, cfg); err != nil {
 						return err
